@@ -9,14 +9,25 @@
      std-log bridge, as a table (method -> family of C05/Cores.v -> guards).
    No proofs in this file.
 
-   input  = (tree cells dev onpanic onfatal child (call ...))     tree/cells as in C05/Model.v (all leaves are IO cores)
+   input  = (tree cells dev onpanic onfatal child (call ...) [(stack ...)])     tree/cells as in C05/Model.v (all leaves are IO cores)
      hook cfg = (0) nil | (1) WriteThenNoop | (2) WriteThenGoexit | (3) WriteThenPanic | (4) WriteThenFatal | (5 k) custom hook k
-     call  = (recv kind suffix level #msg (argshape via #text))
+     call  = (recv kind suffix level #msg (argshape via #text) [(len ...)])
              msg = the message the call's arguments amount to (what fmt / bytes.TrimSpace make of them: an oracle
              the harness ships; may be empty); the last element says how the harness built the arguments (replay only)
+             len ... = the length of each Write the call hands to an IO core's sink, in order (what the encoder
+             produced: an oracle the harness ships; the theorems hold for all lengths)
+     stack = what sits between the k-th IO leaf (order of leaf_ids) and its recording sinks - whose Write only stages
+             the bytes and whose Sync commits them -, a tree of WriteSyncer combinators:
+             (0) the recording sink | (1 size stopped inner) BufferedWriteSyncer{Size: size} (stopped: Stop has run)
+             | (2 inner) zapcore.Lock | (3 inner) zapcore.AddSync of a writer that has a Sync method
+             | (4 (inner ...)) zapcore.NewMultiWriteSyncer
      special input (table): the observation must be the method table
-   observation = ((o ...) (flushed ...)):  o = ((ev ...) term), ev = (0 id) Write | (1 id) Sync | (2 h) hook,
+   observation = ((o ...) (flushed ...)):  o = ((ev ...) term pend), ev = (0 id) Write | (1 id) Sync | (2 h) hook,
      term = () | (0 #value) panic with that value | (1) exit status 1 | (2) Goexit | (3 k) custom hook k ran;
+     pend = for every leaf that has a stack, for every recording sink below it: the number of bytes the IO core has
+            written so far that the sink has NOT committed at the moment control is lost / the call returns
+            (in-process: in the terminal hook, in recover, in the deferred function; child processes: what is
+            missing from the sink's file after the process is gone);
      flushed (child-process cases only) = lines found in the file behind each leaf's buffered sink *)
 From Coq Require Import List ZArith Bool Lia Arith.
 From Coq.Strings Require Import Byte.
@@ -137,6 +148,100 @@ Fixpoint flushed_lines (id : nat) (evs : list ev) (pending done : nat) : nat :=
   | EHook _ :: r => flushed_lines id r pending done
   end.
 
+(* ---------------- WriteSyncer combinators between an IO core and its sinks ----------------
+   zapcore/write_syncer.go (Lock, AddSync, NewMultiWriteSyncer) and zapcore/buffered_write_syncer.go, over
+   recording sinks whose Write only stages the bytes and whose Sync commits them (a bufio.Writer over a file,
+   a batching network sink, another process).  Bytes are counted, not stored (order and content are C12's).
+   The state lives in the tree: a sink holds (staged, committed), a BufferedWriteSyncer what its bufio.Writer
+   has buffered. *)
+Inductive ws :=
+| SkSink (staged committed : Z)
+| SkBuf (size : Z) (stopped : bool) (buffered : Z) (inner : ws)
+| SkLock (inner : ws)
+| SkAddSync (inner : ws)
+| SkMulti (l : list ws).
+
+Definition zsum (l : list Z) : Z := fold_right Z.add 0 l.
+(* initialize(): Size 0 means 256 kB; bufio.NewWriterSize replaces a size <= 0 by 4096 *)
+Definition eff_size (sz : Z) : Z := if sz =? 0 then 262144 else if sz <? 0 then 4096 else sz.
+(* BufferedWriteSyncer.Write(bs), len bs = n, with b bytes buffered; out = the Writes handed to the wrapped
+   WriteSyncer so far, in order *)
+Definition buf_step (cap : Z) (stopped : bool) (acc : Z * list Z) (n : Z) : Z * list Z :=
+  let '(b, out) := acc in
+  (* "manually flush the existing buffer if the current write doesn't fit and the buffer is not empty" *)
+  let '(b1, out1) := if (cap - b <? n) && negb (b =? 0) then (0, out ++ [b]) else (b, out) in
+  (* bufio.Writer.Write: what does not fit into the (now empty) buffer goes to the wrapped writer as it is,
+     anything else is copied into the buffer *)
+  let '(b2, out2) := if cap - b1 <? n then (b1, out1 ++ [n]) else (b1 + n, out1) in
+  (* "if s.stopped { err = s.writer.Flush() }" (Flush writes nothing when nothing is buffered) *)
+  if stopped && negb (b2 =? 0) then (0, out2 ++ [b2]) else (b2, out2).
+
+(* the Writes ns, in order, and then - when sy - one Sync, on the stack s.
+   BufferedWriteSyncer.Sync: writer.Flush(), then WS.Sync() - whatever was buffered;
+   lockedWriteSyncer, multiWriteSyncer: Write and Sync go to every wrapped WriteSyncer;
+   AddSync(w) of a w that has a Sync method is w itself *)
+Fixpoint sk_run (ns : list Z) (sy : bool) (s : ws) {struct s} : ws :=
+  match s with
+  | SkSink st c => if sy then SkSink 0 (c + (st + zsum ns)) else SkSink (st + zsum ns) c
+  | SkBuf sz stopped b i =>
+      let r := fold_left (buf_step (eff_size sz) stopped) ns (b, []) in
+      if sy then SkBuf sz stopped 0 (sk_run (if fst r =? 0 then snd r else snd r ++ [fst r]) true i)
+      else SkBuf sz stopped (fst r) (sk_run (snd r) false i)
+  | SkLock i => SkLock (sk_run ns sy i)
+  | SkAddSync i => SkAddSync (sk_run ns sy i)
+  | SkMulti l => SkMulti (map (sk_run ns sy) l)
+  end.
+Definition sk_write (n : Z) (s : ws) : ws := sk_run [n] false s.
+Definition sk_sync (s : ws) : ws := sk_run [] true s.
+
+(* per recording sink (left to right): the bytes written at the top of the stack that the sink has not
+   committed = what sits in the buffers above it + what it has staged *)
+Fixpoint sk_pending (acc : Z) (s : ws) {struct s} : list Z :=
+  match s with
+  | SkSink st _ => [acc + st]
+  | SkBuf _ _ b i => sk_pending (acc + b) i
+  | SkLock i => sk_pending acc i
+  | SkAddSync i => sk_pending acc i
+  | SkMulti l => flat_map (sk_pending acc) l
+  end.
+Fixpoint sk_committed (s : ws) : list Z :=
+  match s with
+  | SkSink _ c => [c]
+  | SkBuf _ _ _ i => sk_committed i
+  | SkLock i => sk_committed i
+  | SkAddSync i => sk_committed i
+  | SkMulti l => flat_map sk_committed l
+  end.
+(* per sink: everything that is somewhere on the way to it or committed by it *)
+Fixpoint sk_held (acc : Z) (s : ws) {struct s} : list Z :=
+  match s with
+  | SkSink st c => [acc + st + c]
+  | SkBuf _ _ b i => sk_held (acc + b) i
+  | SkLock i => sk_held acc i
+  | SkAddSync i => sk_held acc i
+  | SkMulti l => flat_map (sk_held acc) l
+  end.
+Fixpoint sk_nsinks (s : ws) : nat :=
+  match s with
+  | SkSink _ _ => 1%nat
+  | SkBuf _ _ _ i => sk_nsinks i
+  | SkLock i => sk_nsinks i
+  | SkAddSync i => sk_nsinks i
+  | SkMulti l => fold_right (fun x n => (sk_nsinks x + n)%nat) 0%nat l
+  end.
+
+(* the stacks of the IO leaves, by leaf id; the events of a call applied to them: the k-th Write of the
+   call has length (nth k lens) *)
+Definition sinks := nat -> ws.
+Definition sk_upd (st : sinks) (i : nat) (v : ws) : sinks := fun j => if Nat.eqb j i then v else st j.
+Fixpoint run_evs (lens : list Z) (st : sinks) (evs : list ev) : sinks :=
+  match evs with
+  | [] => st
+  | EWrite i :: r => run_evs (tl lens) (sk_upd st i (sk_write (hd 0 lens) (st i))) r
+  | ESync i :: r => run_evs lens (sk_upd st i (sk_sync (st i))) r
+  | EHook _ :: r => run_evs lens st r
+  end.
+
 (* ---------------- wire ---------------- *)
 Definition dec_recv (z : Z) : recv := match z with 0 => RLogger | 1 => RSugar | 2 => RGrpc | 3 => RZapio | _ => RStdLog end.
 Definition dec_kind (z : Z) : kind :=
@@ -163,10 +268,25 @@ Definition enc_term (a : option action) (pv : option bytes) : sx :=
   | Some AExit => SL [SZ 1] | Some AGoexit => SL [SZ 2] | Some (ACustom k) => SL [SZ 3; of_nat k]
   end.
 
-Record call := { c_method : method; c_level : level; c_msg : bytes }.
+Record call := { c_method : method; c_level : level; c_msg : bytes; c_lens : list Z }.
 Definition dec_call (s : sx) : call :=
   {| c_method := {| m_recv := dec_recv (sx_z (sx_nth s 0)); m_kind := dec_kind (sx_z (sx_nth s 1)); m_suffix := dec_suffix (sx_z (sx_nth s 2)) |};
-     c_level := sx_z (sx_nth s 3); c_msg := sx_b (sx_nth s 4) |}.
+     c_level := sx_z (sx_nth s 3); c_msg := sx_b (sx_nth s 4); c_lens := map sx_z (sx_l (sx_nth s 6)) |}.
+
+(* a stack as the harness built it: nothing buffered, nothing staged, nothing committed *)
+Fixpoint dec_ws (s : sx) {struct s} : ws :=
+  match s with
+  | SL (SZ tag :: args) =>
+      match tag, args with
+      | 1, [sz; stopped; i] => SkBuf (sx_z sz) (sx_bool stopped) 0 (dec_ws i)
+      | 2, [i] => SkLock (dec_ws i)
+      | 3, [i] => SkAddSync (dec_ws i)
+      | 4, [SL l] => SkMulti (map dec_ws l)
+      | _, _ => SkSink 0 0
+      end
+  | _ => SkSink 0 0
+  end.
+Definition dec_stacks (i : sx) : list ws := map dec_ws (sx_l (sx_nth i 7)).
 
 Definition all_io (id : nat) : bool := true.
 Definition leaf_ids (c : core) : list nat := map snd (paths c).
@@ -177,9 +297,24 @@ Definition dec_logger (ok : world -> core -> enabler -> bool) (w0 : world) (i : 
   {| lcore := fst (build_with ok w0 (sx_nth i 0)); dev := sx_bool (sx_nth i 2);
      on_panic := dec_hook (sx_nth i 3); on_fatal := dec_hook (sx_nth i 4) |}.
 
-Definition model_call (w : world) (lg : logger) (cl : call) : sx :=
+(* the leaves that have a stack (the first ones of leaf_ids), and the initial state *)
+Definition sk_ids (c : core) (stks : list ws) : list nat := firstn (length stks) (leaf_ids c).
+Definition sk_init (ids : list nat) (stks : list ws) : sinks :=
+  fun id => match find (fun p => Nat.eqb (fst p) id) (combine ids stks) with Some p => snd p | None => SkSink 0 0 end.
+Definition enc_pend (ids : list nat) (st : sinks) : sx :=
+  SL (map (fun id => SL (map SZ (sk_pending 0 (st id)))) ids).
+
+(* one call: the events, the terminal action, and what every sink below every leaf has not committed
+   when the call ends (= when control is lost, if it is); the state of the stacks goes on to the next call *)
+Definition model_call (w : world) (lg : logger) (ids : list nat) (st : sinks) (cl : call) : sx * sinks :=
   let '(evs, a, pv) := front_call w lg all_io (c_method cl) (c_level cl) (c_msg cl) in
-  SL [SL (map enc_ev evs); enc_term a pv].
+  let st' := run_evs (c_lens cl) st evs in
+  (SL [SL (map enc_ev evs); enc_term a pv; enc_pend ids st'], st').
+Fixpoint model_calls (w : world) (lg : logger) (ids : list nat) (st : sinks) (cls : list call) : list sx :=
+  match cls with
+  | [] => []
+  | cl :: r => let '(o, st') := model_call w lg ids st cl in o :: model_calls w lg ids st' r
+  end.
 
 Definition model (i : sx) : sx :=
   if is_table i then SL (map enc_method methods) else
@@ -187,7 +322,9 @@ Definition model (i : sx) : sx :=
   let lg := dec_logger increase_ok w0 i in
   let calls := map dec_call (sx_l (sx_nth i 6)) in
   let child := sx_bool (sx_nth i 5) in
-  SL [SL (map (model_call w0 lg) calls);
+  let stks := dec_stacks i in
+  let ids := sk_ids (lcore lg) stks in
+  SL [SL (model_calls w0 lg ids (sk_init ids stks) calls);
       SL (match calls with
           | [cl] => if child then
                       map (fun id => of_nat (flushed_lines id (fst (log_call w0 lg all_io (fam_of (c_method cl)) (c_level cl))) 0 0))
@@ -229,17 +366,30 @@ Definition spec_term (lg : logger) (l : level) (msg : bytes) : sx :=
   | Some (ACustom k) => SL [SZ 3; of_nat k]
   end.
 
-Definition spec_call (w : world) (lg : logger) (cl : call) (o : sx) : bool :=
+(* "so the final message is never left in a buffer": when a call above error level ends - when control
+   is lost, if the call is terminal - every recording sink below every leaf the entry was delivered to,
+   whatever WriteSyncer combinators sit in between, has committed everything the IO core has written *)
+Definition is_zero (s : sx) : bool := match s with SZ 0 => true | _ => false end.
+Definition spec_pend (w : world) (lg : logger) (ids : list nat) (stks : list ws) (l : level) (o : sx) : bool :=
+  Nat.eqb (length (sx_l o)) (length ids) &&
+  forallb (fun x : nat * sx =>
+             let '(id, p) := x in
+             Nat.eqb (length (sx_l p)) (sk_nsinks (sk_init ids stks id)) &&
+             (if (ErrorL <? l) && existsb (Nat.eqb id) (delivered w (lcore lg) l) then forallb is_zero (sx_l p) else true))
+          (combine ids (sx_l o)).
+
+Definition spec_call (w : world) (lg : logger) (ids : list nat) (stks : list ws) (cl : call) (o : sx) : bool :=
   let evs := map dec_ev (sx_l (sx_nth o 0)) in
   let l := c_level cl in
   nat_list_eqb (writes_of evs) (delivered w (lcore lg) l) &&       (* handed to every accepting core, in order *)
   nat_list_eqb (ev_hooks_of evs) (hooks_due w (lcore lg) l) &&
   sync_ok (ErrorL <? l) evs &&                                     (* IO cores synced before control is lost *)
-  sx_eqb (sx_nth o 1) (spec_term lg l (c_msg cl)).                 (* and then the terminal action, or none *)
-Fixpoint spec_calls (w : world) (lg : logger) (cls : list call) (os : list sx) : bool :=
+  sx_eqb (sx_nth o 1) (spec_term lg l (c_msg cl)) &&               (* and then the terminal action, or none *)
+  spec_pend w lg ids stks l (sx_nth o 2).                          (* with nothing left in a buffer *)
+Fixpoint spec_calls (w : world) (lg : logger) (ids : list nat) (stks : list ws) (cls : list call) (os : list sx) : bool :=
   match cls, os with
   | [], [] => true
-  | cl :: r, o :: os' => spec_call w lg cl o && spec_calls w lg r os'
+  | cl :: r, o :: os' => spec_call w lg ids stks cl o && spec_calls w lg ids stks r os'
   | _, _ => false
   end.
 Definition count_writes (id : nat) (l : list nat) : nat := length (filter (Nat.eqb id) l).
@@ -250,7 +400,8 @@ Definition spec (i o : sx) : bool :=
   let lg := dec_logger spec_increase_ok w0 i in
   let calls := map dec_call (sx_l (sx_nth i 6)) in
   let child := sx_bool (sx_nth i 5) in
-  spec_calls w0 lg calls (sx_l (sx_nth o 0)) &&
+  let stks := dec_stacks i in
+  spec_calls w0 lg (sk_ids (lcore lg) stks) stks calls (sx_l (sx_nth o 0)) &&
   (* child process running one call: after the process is gone, the file behind every buffered
      sink holds one line per delivery of an entry above error level *)
   (match calls with
